@@ -57,8 +57,9 @@ UnlockWriter(id) == /\ wlock = id /\ id # 0
                     /\ wlock' = 0 /\ last' = NoRes /\ UNCHANGED <<store, lastTxid, ver, tx, cur>>
 
 \* The writer reads everything committed before it plus its own changes.
+\* (A rolled-back writer's handle may still be open in the driver's view when the next writer,
+\*  which gets the same id, is already bound: the lock, not the handle, is what serialises writers.)
 BindWriter(h, id) == /\ tx[h].st = "calling" /\ wlock = id
-                     /\ \A g \in Handles : ~(tx[g].st = "open" /\ tx[g].w /\ tx[g].id = id)
                      /\ id = lastTxid + 1
                      /\ tx' = [tx EXCEPT ![h] = [st |-> "open", w |-> TRUE, id |-> id, root |-> store,
                                                   pub |-> FALSE, lo |-> 0]]
@@ -101,7 +102,7 @@ Publish(h) == /\ tx[h].st = "open" /\ tx[h].w /\ ~tx[h].pub /\ wlock = tx[h].id
 \* A write transaction the library runs on its own (db.go:311-323: the freelist flush in Open):
 \* it publishes a new txid with unchanged content.
 InternalCommit(id) == /\ wlock = id /\ id = lastTxid + 1
-                      /\ \A g \in Handles : ~(tx[g].st = "open" /\ tx[g].w /\ tx[g].id = id)
+                      /\ \A g \in Handles : ~(tx[g].st = "open" /\ tx[g].w /\ tx[g].id = id /\ ~tx[g].pub)
                       /\ lastTxid' = id
                       /\ ver' = [i \in Needed(id) |-> IF i = id THEN store ELSE ver[i]]
                       /\ last' = NoRes /\ UNCHANGED <<store, tx, cur, wlock>>
